@@ -285,6 +285,7 @@ def run_scenario(w: World, scn: Dict[str, Any], client_async: bool, suffix: str 
             obs.request = pjrpc.BatchRequest(*[pjrpc.Request('flaky', [t], i) for t, i in zip(toks, ids)])
             op = lambda: b.send(obs.request, **send_kw)  # noqa: E731
 
+    start = len(w.history)
     w.rec(node, 'caller.invoke', req_kind=kind, via=via)
     try:
         if client_async:
@@ -301,7 +302,7 @@ def run_scenario(w: World, scn: Dict[str, Any], client_async: bool, suffix: str 
         obs.exc = e
         w.rec(node, 'caller.return', outcome='raise', exc=type(e).__name__, oid=w.ordinal(e))
     names = {node, st.net.name, st.server.node}
-    obs.records = [r for r in w.history if r['node'] in names]
+    obs.records = [r for r in w.history[start:] if r['node'] in names or r['kind'] == 'sleep']
     return obs
 
 
